@@ -1,10 +1,11 @@
 #!/bin/sh
-# usage: benignbatch.sh C01 C02 ...   (runs tools/benigncheck.py for /tmp/benign/<P>/_benign/{1,2,3})
+# usage: benignbatch.sh <root> <suffix letter> C01 C02 ...   (runs tools/benigncheck.py for <root>/<P>/_benign/{1,2,3}, kept as benign/<P>-<suffix><n>)
 cd "$(dirname "$0")/.."
+root=$1; suf=$2; shift 2
 for p in "$@"; do for n in 1 2 3; do
-  d=/tmp/benign/$p/_benign/$n
+  d=$root/$p/_benign/$n
   [ -f $d/patch.diff ] || continue
-  [ -f benign/$p-b$n/result.json ] && continue
-  tools/benigncheck.py $d $p $p-b$n --keep > /tmp/benign/$p-b$n.out 2>&1
-  echo "$p-b$n $(jq -c '[.baseline,.alarms]' benign/$p-b$n/result.json 2>/dev/null)"
+  [ -f benign/$p-$suf$n/result.json ] && continue
+  tools/benigncheck.py $d $p $p-$suf$n --keep > $root/$p-$suf$n.out 2>&1
+  echo "$p-$suf$n $(jq -c '[.baseline,.alarms]' benign/$p-$suf$n/result.json 2>/dev/null)"
 done; done
